@@ -136,6 +136,22 @@ class C10(Prop):
                     acc.violation(f"parse-raised:{type(exc).__name__}", f"reply with {n} records in {zone} raised {type(exc).__name__}: {exc}", {"records": recs, "reply": reply.hex()})
                     continue
                 self._judge_set(acc, resp.schedules, recs, zone, "direct parse")
+                if k == 0 and recs:
+                    # the host zone changes while the process lives (to one easily mistaken for the first: same abbreviations or
+                    # same offset right now): the very same reply, parsed again, reads in the new zone's local time
+                    alike = clock.confusable(zone, now, env.ZONES)
+                    z2 = alike[i % len(alike)] if alike else env.ZONES[(env.ZONES.index(zone) + 1 + i % 5) % len(env.ZONES)]
+                    for zz in (z2, zone):
+                        clock.set_zone(zz)
+                        acc.ev(n)
+                        acc.count("replies_parsed_again_after_a_zone_change")
+                        try:
+                            again = self.messages.SwitcherGetSchedulesResponse(reply)
+                        except Exception as exc:
+                            acc.violation(f"parse-raised:{type(exc).__name__}", f"reply with {n} records in {zz} (after {zone}) raised {type(exc).__name__}: {exc}", {"records": recs})
+                            continue
+                        self._judge_set(acc, again.schedules, recs, zz, f"direct parse right after the same reply was parsed in {zone if zz == z2 else z2}")
+                    clock.set_zone(zone)
                 # a caller may edit what it was handed (days is a plain public set): later parses must not care
                 for sch in resp.schedules:
                     if isinstance(sch.days, set):
